@@ -644,7 +644,7 @@ def run(ctx):
     instr = sched_mod.Instrumentation(
         line_modules=[ev_attr, ev_registry, ev_base, pool_base],
         threading_modules=[ev_attr, pool_impl, sa_queue],
-        lock_attrs=[(ev_attr, "_exec_once_mutex_creation_lock")],
+        lock_attrs=[(ev_attr, "_exec_once_mutex_creation_lock"), (ev_attr, "_instance_collection_lock")],
     )
     # util.langhelpers is large: preempt only inside only_once's closure
     mon_extra = _only_once_codes(langhelpers)
